@@ -370,7 +370,18 @@ def r_static(sh, rep):
                     sub = fp.get("pat") or {}
                     bound.add(sub.get("name") or "name")
     bound = bound or {"name"}
-    same = any(re.search(r"(?<![\w.])[&*]*%s(==|!=)[&*]*%s(?![\w.(])" % (a, b), body) for x in bound for a, b in ((re.escape(x), re.escape(pv)), (re.escape(pv), re.escape(x))))
+    def strip(e):
+        while isinstance(e, dict) and e.get("k") in ("Unary", "Ref", "Reference", "Paren"):
+            e = e.get("e")
+        return e
+
+    same = False
+    for n in walk(lp["body"]):
+        if n.get("k") == "Binary" and n.get("op") in ("==", "!="):
+            l, r = strip(n["l"]), strip(n["r"])
+            if isinstance(l, dict) and isinstance(r, dict) and l.get("k") == "Path" and r.get("k") == "Path":
+                if (l["p"] in bound and r["p"] == pv) or (r["p"] in bound and l["p"] == pv):
+                    same = True
     rep.check(same, "R01-STATIC", "identify#argument-is-that-very-parameter", sh.loc(GBUILD, lp), "inside the positional loop the argument variable's name must be compared with the loop's own parameter `%s` (==/!=); no such comparison found: a parameter stays `static` although a self-call passes another parameter in its place, and the hoisted binding keeps the initial value for the whole recursion" % pv, sample={"param_binding": pv, "var_name_bindings": sorted(bound)})
 
 
